@@ -1,8 +1,11 @@
 //! Spec -> implementation: executes TLC-generated input histories on the REAL planners over a
 //! lattice space and writes the annotated trace for the TLC monitor.
 //!
-//!   latreplay --in hist.ndjson --out trace.ndjson [--shards K]
+//!   latreplay --in hist.ndjson --out trace.ndjson [--shards K] [--twice] [--seed N]
 //!   latreplay --tables line5,ring6,grid3x3        (prints D / Geo tables as JSON)
+//!
+//! --twice: every history is executed on two planner instances created with the same seed and
+//! the generator draws / results of both are emitted as `stream` events (C07).
 
 use rand::{rngs::StdRng, Rng, RngCore, SeedableRng};
 use serde_json::{json, Value};
@@ -10,8 +13,10 @@ use std::collections::{HashMap, HashSet};
 use std::io::{BufRead, BufWriter, Write};
 use std::rc::Rc;
 use vharness::annot::{Annot, ProblemInfo};
+use vharness::codec::Bits;
 use vharness::drive::*;
 use vharness::geom::LatGeom;
+use vharness::instr::{Draw, Raw};
 use vharness::lattice::*;
 
 fn tables(list: &str) {
@@ -62,11 +67,192 @@ fn seed_for(pattern: &[bool], bias: f64, cache: &mut HashMap<Vec<bool>, u64>) ->
     0
 }
 
+struct Parsed {
+    kind: Kind,
+    topo: Topo,
+    lvs: i64,
+    params: Params,
+    valid: HashSet<i64>,
+    calls: Vec<Call>,
+    iters: Vec<(Scripted, Scripted)>,
+    setup_goal: Vec<Scripted>,
+    probs: Vec<(Vec<LState>, HashSet<i64>)>,
+    cfg_fail_u: Option<u64>,
+    cfg_fail_g: Option<u64>,
+}
+
+fn parse(h: &Value, lineno: usize, vseed: u64, cache: &mut HashMap<Vec<bool>, u64>) -> Parsed {
+    let kind = Kind::parse(h["planner"].as_str().unwrap_or("rrt"));
+    let tk = h["topo"]["kind"].as_str().unwrap();
+    let n = h["topo"]["n"].as_i64().unwrap();
+    let w = h["topo"]["w"].as_i64().unwrap();
+    let topo = match tk {
+        "line" => Topo::Line(n),
+        "ring" => Topo::Ring(n),
+        _ => Topo::Grid(w, n / w),
+    };
+    let lvs = h["lvs"].as_i64().unwrap();
+    let maxd = h["maxd"].as_i64().unwrap_or(1) as f64;
+    let radius = h["rad2"].as_i64().unwrap_or(0) as f64 / 2.0;
+    let bias_s = h["bias"].as_str().unwrap_or("0");
+    let mut bias = match bias_s {
+        "0" => 0.0,
+        "1" => 1.0,
+        "p" => 0.5,
+        other => other.parse::<f64>().unwrap_or(0.5),
+    };
+    let seeded = h["seeded"].as_bool().unwrap_or(true);
+    let valid: HashSet<i64> = h["valid"].as_array().unwrap().iter().map(|v| v.as_i64().unwrap()).collect();
+    let build_ticks = h["build"].as_u64().unwrap_or(0);
+    let fault_kind = h["fault"]["f"].as_str().unwrap_or("none").to_string();
+    let fault_k = h["fault"]["k"].as_u64().unwrap_or(0);
+    if fault_kind == "bias" {
+        bias = match fault_k {
+            1 => -0.1,
+            2 => 1.5,
+            _ => f64::NAN,
+        }
+    }
+    let mut calls = Vec::new();
+    let mut pattern = Vec::new();
+    let mut iters = Vec::new();
+    let mut setup_goal = Vec::new();
+    for c in h["calls"].as_array().unwrap() {
+        match c["c"].as_str().unwrap() {
+            "setup" => {
+                calls.push(Call::Setup(c["i"].as_u64().unwrap() as usize - 1));
+                if let Some(g) = c.get("g").and_then(|g| g.as_i64()) {
+                    setup_goal.push(Scripted::Point(g));
+                }
+            }
+            "solve" => calls.push(Call::Solve(c["t"].as_u64().unwrap_or(h["solve_t"].as_u64().unwrap_or(3)))),
+            "construct" => calls.push(Call::Construct),
+            "setpd" => calls.push(Call::SetPd(c["i"].as_u64().unwrap() as usize - 1)),
+            "it" | "ps" => {
+                let q = c["q"].as_i64().unwrap();
+                let k = c["k"].as_str().unwrap_or("u");
+                pattern.push(k == "g");
+                iters.push((Scripted::Point(q), Scripted::Point(q)));
+            }
+            other => panic!("unknown call {other}"),
+        }
+    }
+    if h["autoscript"].as_bool().unwrap_or(false) {
+        let mut r = StdRng::seed_from_u64(vseed.wrapping_mul(0x9E3779B97F4A7C15) ^ (lineno as u64));
+        let np = topo.npoints();
+        for _ in 0..64 {
+            let a = r.random_range(0..np);
+            iters.push((Scripted::Point(a), Scripted::Point(-1)));
+        }
+    }
+    let seed = if !seeded {
+        None
+    } else if bias_s == "p" && kind != Kind::Prm && fault_kind != "bias" && !pattern.is_empty() {
+        Some(seed_for(&pattern, bias, cache))
+    } else {
+        Some(lineno as u64 + 1 + vseed * 1000003)
+    };
+    let mut probs = Vec::new();
+    for p in h["probs"].as_array().unwrap() {
+        let starts: Vec<LState> = if fault_kind == "nostart" {
+            vec![]
+        } else {
+            vec![LState(p["start"].as_i64().unwrap())]
+        };
+        let gset: HashSet<i64> = p["goal"].as_array().unwrap().iter().map(|v| v.as_i64().unwrap()).collect();
+        probs.push((starts, gset));
+    }
+    Parsed {
+        kind,
+        topo,
+        lvs,
+        params: Params { maxd, bias, radius, build_ticks, seed },
+        valid,
+        calls,
+        iters,
+        setup_goal,
+        probs,
+        cfg_fail_u: if fault_kind == "ufail" { Some(fault_k) } else { None },
+        cfg_fail_g: if fault_kind == "gfail" { Some(fault_k) } else { None },
+    }
+}
+
+fn run_once(p: &Parsed) -> (Vec<CallRec<LState>>, usize) {
+    let space = LatticeSpace::new(p.topo, p.lvs as f64);
+    let script = space.script.clone();
+    {
+        let mut sc = script.borrow_mut();
+        sc.iters = p.iters.clone();
+        sc.setup_goal = p.setup_goal.iter().cloned().collect();
+    }
+    let mut problems = Vec::new();
+    for (starts, gset) in &p.probs {
+        let v = p.valid.clone();
+        problems.push(Problem {
+            starts: starts.clone(),
+            goal: Rc::new(LatGoal { set: gset.clone(), script: script.clone(), topo: p.topo }),
+            checker: Rc::new(move |s: &LState| v.contains(&s.0)),
+        });
+    }
+    let cfg = RunCfg { fail_uniform_at: p.cfg_fail_u, fail_goal_at: p.cfg_fail_g, ..RunCfg::default() };
+    let hook_script = script.clone();
+    let recs = run_history_marked(p.kind, &p.params, space, &problems, &p.calls, &cfg, &move |c: &Call, begin: bool| {
+        if let Call::Setup(_) = c {
+            hook_script.borrow_mut().in_setup = begin;
+        }
+    });
+    let over = script.borrow().overrun;
+    (recs, over)
+}
+
+/// per call: (generator-draw digest, result digest) as interned integers
+fn digests(recs: &[CallRec<LState>], ids: &mut HashMap<String, usize>) -> Vec<(Vec<usize>, usize, bool)> {
+    let mut id = |s: String| -> usize {
+        let n = ids.len() + 1;
+        *ids.entry(s).or_insert(n)
+    };
+    let mut out = Vec::new();
+    for r in recs {
+        let mut ds = Vec::new();
+        for e in &r.raw {
+            match e {
+                Raw::SampleUniform(res, _, draws) | Raw::SampleGoal(res, _, draws) => {
+                    let k = if matches!(e, Raw::SampleUniform(..)) { "U" } else { "G" };
+                    let dd: Vec<String> = draws
+                        .iter()
+                        .map(|d| match d {
+                            Draw::U32(v) => format!("a{v}"),
+                            Draw::U64(v) => format!("b{v}"),
+                            Draw::Fill(b) => format!("c{b:?}"),
+                        })
+                        .collect();
+                    let rs = match res {
+                        Ok(s) => format!("{:?}", s.bits()),
+                        Err(e) => e.clone(),
+                    };
+                    ds.push(id(format!("{k}|{}|{rs}", dd.join(","))));
+                }
+                _ => {}
+            }
+        }
+        let o = match &r.outcome {
+            Outcome::Unit => "unit".to_string(),
+            Outcome::Path(p) => format!("path{:?}", p.iter().map(|s| s.bits()).collect::<Vec<_>>()),
+            Outcome::Err(k) => format!("err:{k}"),
+            Outcome::Panic { loc, .. } => format!("panic:{loc}"),
+        };
+        out.push((ds, id(o), matches!(r.outcome, Outcome::Panic { .. })));
+    }
+    out
+}
+
 fn main() {
     let args: Vec<String> = std::env::args().collect();
     let mut inp = String::new();
     let mut outp = String::new();
     let mut shards = 1usize;
+    let mut twice = false;
+    let mut vseed = 1u64;
     let mut i = 1;
     while i < args.len() {
         match args[i].as_str() {
@@ -84,6 +270,11 @@ fn main() {
             }
             "--shards" => {
                 shards = args[i + 1].parse().unwrap();
+                i += 1
+            }
+            "--twice" => twice = true,
+            "--seed" => {
+                vseed = args[i + 1].parse().unwrap();
                 i += 1
             }
             _ => {}
@@ -109,119 +300,34 @@ fn main() {
             continue;
         }
         let h: Value = serde_json::from_str(&line).expect("hist json");
-        let kind = Kind::parse(h["planner"].as_str().unwrap_or("rrt"));
-        let tk = h["topo"]["kind"].as_str().unwrap();
-        let n = h["topo"]["n"].as_i64().unwrap();
-        let w = h["topo"]["w"].as_i64().unwrap();
-        let topo = match tk {
-            "line" => Topo::Line(n),
-            "ring" => Topo::Ring(n),
-            _ => Topo::Grid(w, n / w),
-        };
-        let lvs = h["lvs"].as_i64().unwrap();
-        let maxd = h["maxd"].as_i64().unwrap_or(1) as f64;
-        let radius = h["rad2"].as_i64().unwrap_or(0) as f64 / 2.0;
-        let bias_s = h["bias"].as_str().unwrap_or("0");
-        let bias = match bias_s {
-            "0" => 0.0,
-            "1" => 1.0,
-            "p" => 0.5,
-            other => other.parse::<f64>().unwrap_or(0.5),
-        };
-        let seeded = h["seeded"].as_bool().unwrap_or(true);
-        let valid: HashSet<i64> = h["valid"].as_array().unwrap().iter().map(|v| v.as_i64().unwrap()).collect();
-        let build_ticks = h["build"].as_u64().unwrap_or(0);
-
-        let space = LatticeSpace::new(topo, lvs as f64);
-        let script = space.script.clone();
-        // calls and script
-        let mut calls = Vec::new();
-        let mut pattern = Vec::new();
-        {
-            let mut sc = script.borrow_mut();
-            for c in h["calls"].as_array().unwrap() {
-                match c["c"].as_str().unwrap() {
-                    "setup" => {
-                        calls.push(Call::Setup(c["i"].as_u64().unwrap() as usize - 1));
-                        if let Some(g) = c.get("g").and_then(|g| g.as_i64()) {
-                            sc.setup_goal.push_back(if g < 0 { Scripted::Fail } else { Scripted::Point(g) });
-                        }
-                    }
-                    "solve" => calls.push(Call::Solve(c["t"].as_u64().unwrap())),
-                    "construct" => calls.push(Call::Construct),
-                    "setpd" => calls.push(Call::SetPd(c["i"].as_u64().unwrap() as usize - 1)),
-                    "it" | "ps" => {
-                        let q = c["q"].as_i64().unwrap();
-                        let k = c["k"].as_str().unwrap_or("u");
-                        let e = if q < 0 { Scripted::Fail } else { Scripted::Point(q) };
-                        pattern.push(k == "g");
-                        sc.iters.push((e.clone(), e));
-                    }
-                    other => panic!("unknown call {other}"),
-                }
-            }
-        }
-        let seed = if !seeded {
-            None
-        } else if bias_s == "p" && kind != Kind::Prm {
-            Some(seed_for(&pattern, bias, &mut cache))
-        } else {
-            Some(lineno as u64 + 1)
-        };
-        let params = Params { maxd, bias, radius, build_ticks, seed };
-        let mut problems = Vec::new();
-        let mut pinfo = Vec::new();
-        for p in h["probs"].as_array().unwrap() {
-            let starts: Vec<LState> = match p.get("starts") {
-                Some(a) => a.as_array().unwrap().iter().map(|v| LState(v.as_i64().unwrap())).collect(),
-                None => vec![LState(p["start"].as_i64().unwrap())],
-            };
-            let gset: HashSet<i64> = p["goal"].as_array().unwrap().iter().map(|v| v.as_i64().unwrap()).collect();
-            {
-                let mut sc = script.borrow_mut();
-                sc.fallback_g = *gset.iter().min().unwrap_or(&0);
-            }
-            let v = valid.clone();
-            let gs = gset.clone();
-            pinfo.push(ProblemInfo {
-                start: starts.first().cloned(),
-                goal_sat: Box::new(move |s: &LState| gs.contains(&s.0)),
-            });
-            problems.push(Problem {
-                starts,
-                goal: Rc::new(LatGoal { set: gset, script: script.clone(), topo }),
-                checker: Rc::new(move |s: &LState| v.contains(&s.0)),
-            });
-        }
-        let cfg = RunCfg {
-            fail_uniform_at: None,
-            fail_goal_at: None,
-            ..RunCfg::default()
-        };
-        // the driver needs to flag setup calls for the goal sampler
-        let mut recs = Vec::new();
-        {
-            // run call by call so that in_setup can be toggled: run_history runs the whole list, so
-            // we mark in_setup around it by splitting on Setup calls
-            let marked: Vec<Call> = calls.clone();
-            script.borrow_mut().in_setup = false;
-            let hook_script = script.clone();
-            let r = run_history_marked(kind, &params, space.clone(), &problems, &marked, &cfg, &move |c: &Call, begin: bool| {
-                if let Call::Setup(_) = c {
-                    hook_script.borrow_mut().in_setup = begin;
-                }
-            });
-            recs.extend(r);
-        }
-        let geom = LatGeom { topo, lvs, valid: valid.clone() };
-        let mut an = Annot::new(&geom, kind, params.clone());
+        let p = parse(&h, lineno, vseed, &mut cache);
+        let (recs, over) = run_once(&p);
+        overruns += over;
+        let pinfo: Vec<ProblemInfo<LState>> = p
+            .probs
+            .iter()
+            .map(|(starts, gset)| {
+                let gs = gset.clone();
+                ProblemInfo { start: starts.first().cloned(), goal_sat: Box::new(move |s: &LState| gs.contains(&s.0)) }
+            })
+            .collect();
+        let geom = LatGeom { topo: p.topo, lvs: p.lvs, valid: p.valid.clone() };
+        let mut an = Annot::new(&geom, p.kind, p.params.clone());
         an.reset(lineno + 1, json!({"line": lineno + 1}));
         for r in &recs {
             an.call(r, &pinfo);
         }
-        overruns += script.borrow().overrun;
         if let Some(last) = an.out.last() {
-            distinct_snaps.insert(format!("{}|{}", line_key(&h), last["snap"]));
+            distinct_snaps.insert(format!("{}{}{}|{}", h["topo"], h["valid"], h["probs"], last["snap"]));
+        }
+        if twice {
+            let (recs2, _) = run_once(&p);
+            let mut ids = HashMap::new();
+            for (inst, rr) in [(1, &recs), (2, &recs2)] {
+                for (ci, (ds, o, pan)) in digests(rr, &mut ids).into_iter().enumerate() {
+                    an.out.push(json!({"ev": "stream", "inst": inst, "call": ci + 1, "draws": ds, "res": o, "pan": pan}));
+                }
+            }
         }
         let o = &mut outs[nruns % shards];
         for ev in &an.out {
@@ -237,8 +343,4 @@ fn main() {
         "{}",
         json!({"runs": nruns, "events": nevents, "script_overruns": overruns, "distinct_final_snapshots": distinct_snaps.len()})
     );
-}
-
-fn line_key(h: &Value) -> String {
-    format!("{}{}{}", h["topo"], h["valid"], h["probs"])
 }
